@@ -14,6 +14,7 @@ import (
 	rlutil "github.com/kubewharf/kubegateway/pkg/ratelimiter/util"
 
 	"kgsim/sim"
+	"kgsim/simapi"
 )
 
 // RunC13I: leadership gains and losses of a shard, the periodic leader check
@@ -52,6 +53,19 @@ func RunC13I(r *sim.Run) {
 	w.Advance(2 * time.Second)
 	el := limiter.KgsimElector(rp.RL)
 	const other = "http://rl-9:8443"
+	// a List call of the store (Load) can be held: see the gain+lose-during-load event
+	var holdList func()
+	var holdThread *sim.Thread
+	holdShard := -1
+	w.Cond.Fault = func(node, verb, name string) int {
+		if verb == "list" && holdList != nil && holdThread != nil && w.Sc.Current() == holdThread {
+			h := holdList
+			holdList = nil
+			h()
+		}
+		return simapi.Proceed
+	}
+	_ = holdShard
 
 	leads := make([]bool, shards) // ground truth: the last election event of the shard
 	storeSet := func() string { return fmt.Sprint(limiter.KgsimStoreShards(rp.RL)) }
@@ -87,7 +101,7 @@ func RunC13I(r *sim.Run) {
 	}
 
 	rounds := t.Range(4, 14)
-	events, overlaps, refusedOK, served := 0, 0, 0, 0
+	events, overlaps, refusedOK, served, lostDuringStart := 0, 0, 0, 0, 0
 	for round := 0; round < rounds && !r.Violated(); round++ {
 		r.Step = round
 		var log []string
@@ -109,6 +123,41 @@ func RunC13I(r *sim.Run) {
 			} else if t.Draw(4) == 0 {
 				log = append(log, fmt.Sprintf("observe-other %d", s))
 				w.Sc.Go(fmt.Sprintf("r%d-other%d", round, s), func() { elector.KgsimNewLeader(el, s, other) })
+			} else if storeKind == "k8s" && t.Draw(3) == 0 {
+				// the lease is lost again while the started-leading callback is still at work:
+				// client-go runs that callback in a goroutine of its own, and it loads the
+				// shard from an API server that is slow (which is also why the renewals
+				// fail). The callback is held inside its List call; the stop event (and,
+				// one time in two, the new holder's identity) is delivered meanwhile.
+				log = append(log, fmt.Sprintf("gain+lose-during-load %d", s))
+				gainDone, listReached, release := false, false, false
+				holdShard = s
+				holdList = func() {
+					listReached = true
+					for !release {
+						w.Sc.Blocked("held-in-the-list-call-of-Load")
+					}
+				}
+				holdThread = w.Sc.Go(fmt.Sprintf("r%d-gain%d", round, s), func() {
+					elector.KgsimNewLeader(el, s, rp.Identity)
+					elector.KgsimStartLeading(el, s)
+					gainDone = true
+				})
+				nThreads++
+				withOther := t.Draw(2) == 0
+				w.Sc.Go(fmt.Sprintf("r%d-lose%d", round, s), func() {
+					for !listReached && !gainDone {
+						w.Sc.Blocked("waits-for-the-callback-to-reach-Load")
+					}
+					if listReached && !gainDone {
+						lostDuringStart++
+					}
+					if withOther {
+						elector.KgsimNewLeader(el, s, other)
+					}
+					elector.KgsimStopLeading(el, s)
+					release = true
+				})
 			} else {
 				leads[s] = true
 				log = append(log, fmt.Sprintf("gain %d", s))
@@ -176,7 +225,7 @@ func RunC13I(r *sim.Run) {
 			}
 			log = append(log, fmt.Sprintf("%s %s -> %v", c.kind, c.up, c.err == nil))
 		}
-		r.Logf("round %d: %s | stores %s leads %s", round, strings.Join(log, ", "), storeSet(), wantSet())
+		r.Logf("round %d: %s | stores %s leads %s believes %s", round, strings.Join(log, ", "), storeSet(), wantSet(), leadersBrief(rp))
 		// settle: two undisturbed leader checks, then the stores are exactly the led shards
 		if t.Draw(2) == 0 || round == rounds-1 {
 			for k := 0; k < 2; k++ {
@@ -205,6 +254,7 @@ func RunC13I(r *sim.Run) {
 	r.ProbeN("rounds_with_overlap", overlaps)
 	r.ProbeN("calls_served", served)
 	r.ProbeN("calls_refused_for_unled_shard", refusedOK)
+	r.ProbeN("lease_lost_while_the_started_leading_callback_ran", lostDuringStart)
 	r.ProbeN("yields", w.Sc.Yields)
 	r.Nontrivial = events >= 2 && overlaps >= 1
 	r.Sample = map[string]interface{}{"shards": shards, "store": storeKind + "/" + period.String(), "rounds": rounds, "election_events": events, "served": served}
